@@ -596,7 +596,11 @@ class Hist:
                 pid = I(s["plan"])
                 pl = self.plans(prev).get(pid)
                 linked = [str(pid), na] in prev["ix"]["node_plan"]
-                leased = pl is not None and any(x[0] == pl["prov"] and x[1] == na for x in prev["ix"]["pay_acc_node"])
+                # "currently leased": the plan's provider holds an ACTIVE hourly subscription to the node -- decided on the
+                # primary records, not on the lease index MsgStart itself consults (an index entry that outlives its
+                # subscription must not fool the monitor: seed C08_3)
+                leased = pl is not None and any(x["k"] == "node" and x["a"] == pl["prov"] and x["node"] == na and x["st"] == 1 and I(x["hr"]) > 0
+                                                for x in prev["sub"])
                 if not linked or not leased:
                     self.v("C08", i, "session started on a node not linked to / not leased by the plan (linked=%s leased=%s)" % (linked, leased))
             for x in self.sessions(prev).values():
